@@ -159,6 +159,23 @@ def enumerate_days(shard, nshards, stride):
                 yield (d, unit, n, sign)
 
 
+def op_spelling(rng, lang, sign):
+    """'+' / '-' or one of the language's operator words for it, in lower, capitalised or (ASCII words) upper case"""
+    sym = '+' if sign > 0 else '-'
+    if rng.random() < 0.85:
+        return sym
+    ws = lex.operator_words(lang).get(sym)
+    if not ws:
+        return sym
+    w = rng.choice(ws)
+    r = rng.random()
+    if r < 0.4:
+        return w
+    if r < 0.7:
+        return w[0].upper() + w[1:]
+    return w.upper() if (w.isascii() and 'i' not in w) else w
+
+
 def run_shard(ctx):
     rng = ctx.rng
     res = ctx.res
@@ -228,7 +245,7 @@ def run_shard(ctx):
                     continue
                 w = rng.choice(words[unit])
                 sign = rng.choice([1, -1])
-                text = '%s %s %d %s' % (text, '+' if sign > 0 else '-', n, w)
+                text = '%s %s %d %s' % (text, op_spelling(rng, lang, sign), n, w)
                 try:
                     if unit == 'day':
                         want = d + datetime.timedelta(days=sign * n)
@@ -244,6 +261,23 @@ def run_shard(ctx):
                     continue
                 span_days = {'day': n, 'week': 7 * n}.get(unit)
                 meta.append((lang, text, 'arith:%s:%s' % (unit, '+' if sign > 0 else '-'), ('date', want, d, span_days, sign, unit, n)))
+            elif r < 0.755:
+                # many spans behind one date (each needs its own rewrite): 2..45 terms of less than 30 days each
+                if 'day' not in words or 'week' not in words:
+                    continue
+                text, form = spell(rng, lang, d, today, force_year=True)
+                total = 0
+                for _k in range(rng.choice([2, 10, 20, 31, 32, 33, 34, 40, 45])):
+                    sg = rng.choice([1, 1, -1])
+                    u_ = rng.choice(['day', 'day', 'week'])
+                    n_ = rng.randint(1, 3) if u_ == 'week' else rng.randint(1, 20)
+                    total += sg * n_ * (7 if u_ == 'week' else 1)
+                    text += ' %s %d %s' % ('+' if sg > 0 else '-', n_, rng.choice(words[u_]))
+                try:
+                    want = d + datetime.timedelta(days=total)
+                except OverflowError:
+                    continue
+                meta.append((lang, text, 'long-chain', ('date', want)))
             elif r < 0.80:
                 # a negative span reaches the date: attached minus sign, a parenthesised difference, or a variable
                 unit = rng.choice(['day', 'day', 'week'])
